@@ -20,6 +20,28 @@ CHECKS = {
         design_ref='§7 C09',
         note=NOTE_COMMON + 'Thread interleavings of the real interpreter are sampled, not enumerated; sha256 prefixes identify texts.',
         technique='TLA+ refinement (TLC) + history replay + trace validation'),
+    'C04': dict(
+        category='model_checking',
+        text=('TLC checks the ideal executor laws (LastWriteWins as an action property, OverriddenIsConstant, UntouchedKeepMeaning, '
+              'SizesGrow) and that the code-shaped executor model (set of (uid,value) cells, lazy replay into the instance, '
+              'default evaluation order) refines the ideal one; the pinned-commit variant is kept as a failing census. Binding: '
+              'every sequence of override batches TLC enumerates is replayed on a real Executor under several PYTHONHASHSEEDs '
+              'and every coordinate, grid and size is compared after each batch with the snapshot the specification computes by '
+              'evaluating (workbook (+) overrides) itself; a sample is compared with a fresh translation of the edited workbook; '
+              'random long histories recorded from the real Executor are validated by TLC (Trace_C04).'),
+        design_ref='§7 C04',
+        note=NOTE_COMMON + 'The generator workbook (exported from the spec) uses + * / on integers; other formula semantics are covered by C01/C10-C17.',
+        technique='TLA+ refinement (TLC) + history replay + trace validation'),
+    'C08': dict(
+        category='model_checking',
+        text=('TLC checks QueriesArePure (action property), GridIsBox and SizesGrow on the ideal executor and enumerates every '
+              'schedule of up to N queries (single cell / list / whole sheet) for three override sets; each schedule is replayed '
+              'on one real Executor with random addressing spellings: every reply must equal the ideal (schedule-independent) '
+              'reply and sizes and override map must be unchanged after every query. Query-heavy random traces are validated '
+              'by TLC (Trace_C04).'),
+        design_ref='§7 C08',
+        note=NOTE_COMMON + 'The override map is observed through instance._arguments when that attribute exists.',
+        technique='TLA+ action properties (TLC) + schedule replay + trace validation'),
 }
 
 NOT_APPLICABLE = {}
